@@ -163,7 +163,7 @@ Definition pbkdf2_guard (alg : bytes) (jwk : json) (iter : Z) (stl : N) : gverdi
 (* alg_wrap_unw: st[KEYMAX] <- p2s *)
 Definition pbes2_unw_st (hdr : json) : site_res := decode_into (lookup l_p2s hdr) 8 keymax false.
 
-(* alg_wrap_unw: "{s:I}" p2c (64 bits), upper bound only, then [pbkdf2(..., int iter = p2c, ...)] *)
+(* alg_wrap_unw: "{s:I}" p2c (64 bits), [p2c < 1 || p2c > MAX] refuses, then [pbkdf2(..., int iter = p2c, ...)] *)
 Definition pbes2_unw_guard (alg : bytes) (hdr jwk : json) : gverdict kdf_req :=
   match pbes2_idx alg with
   | None => Refuse
@@ -174,7 +174,7 @@ Definition pbes2_unw_guard (alg : bytes) (hdr jwk : json) : gverdict kdf_req :=
           match unpack_I pj with
           | None => Refuse
           | Some p2c =>
-              if (Z.of_N p2c_max_iterations <? p2c)%Z then Refuse
+              if (p2c <? 1)%Z || (Z.of_N p2c_max_iterations <? p2c)%Z then Refuse
               else
                 match sr_go (pbes2_unw_st hdr) with
                 | None => Refuse
@@ -186,22 +186,22 @@ Definition pbes2_unw_guard (alg : bytes) (hdr jwk : json) : gverdict kdf_req :=
 
 Definition pbes2_wrp_stl (i : N) : N := match i with 0 => 16 | 1 => 24 | _ => 32 end.
 
-(* alg_wrap_wrp: [int p2c = P2C_MAX_ITERATIONS; json_unpack(hdr, "{s?i}", "p2c", &p2c)]; the range test is on
-   the int.  Proceed (p2c member of the produced header, request). *)
+(* alg_wrap_wrp: [json_int_t p2c = P2C_MAX_ITERATIONS; json_unpack(hdr, "{s?I}", "p2c", &p2c)]; the range test is
+   on the 64-bit value; [pbkdf2(..., int iter = p2c, ...)].  Proceed (p2c member of the produced header, request). *)
 Definition pbes2_wrp_guard (alg : bytes) (hdr jwk : json) : gverdict (json * kdf_req) :=
   match pbes2_idx alg with
   | None => Refuse
   | Some i =>
       let p2c := match lookup l_p2c hdr with
                  | None => Some (Z.of_N p2c_max_iterations)
-                 | Some j => unpack_i j
+                 | Some j => unpack_I j
                  end in
       match p2c with
       | None => Refuse
       | Some c =>
           if (c <? Z.of_N p2c_min_iterations)%Z || (Z.of_N p2c_max_iterations <? c)%Z then Refuse
           else
-            match pbkdf2_guard alg jwk c (pbes2_wrp_stl i) with
+            match pbkdf2_guard alg jwk (wrap32 c) (pbes2_wrp_stl i) with
             | Refuse => Refuse
             | Proceed r =>
                 Proceed (match lookup l_p2c hdr with Some j => j | None => JInt c end, r)
